@@ -1,6 +1,5 @@
 /* contracts for /repo/rset.c (C13: the pattern typed for / ? and ex addresses; C10: pattern sets) */
 int regcomp(regex_t *preg, char *regex, int cflags) { return 1; }
-int regexec(regex_t *preg, char *str, int nmatch, regmatch_t pmatch[], int eflags) { return 1; }
 void regfree(regex_t *preg) { }
 
 /* the string buffer as an output stream (sbuf units prove it keeps bytes and order) */
@@ -67,6 +66,84 @@ void h_re_read_bounded(void)
 	}
 	H_ASSERT(RDO.n == o && RDO.out[o] == 0, "re_read: the pattern ends at the first unescaped delimiter (or the end of the source)");
 	H_ASSERT(p == src + i + (src[i] != 0), "re_read: the source is left behind the closing delimiter (at the terminator if there is none)");
+#ifdef CANARY
+	__CPROVER_assert(0, "canary");
+#endif
+}
+
+/* ================================================================== BOUNDED: rset_find - which pattern of a set matched, and its groups (C10, C12) */
+/* sets of up to RS_MAXN patterns (some absent), each with 0..2 groups of its own, numbered the way
+ * rset_make numbers them; the combined expression's matcher is a stub that reports any outcome */
+#define RS_MAXN 3
+#define RS_MAXG 12
+struct ghost_rsf_in { int found; int so[RS_MAXG], eo[RS_MAXG]; } RFI;
+struct ghost_rsf { int calls, flg, nsub, bad; char *subj; } RF;
+int regexec(regex_t *preg, char *str, int nmatch, regmatch_t pmatch[], int eflags)
+{
+	int i;
+	RF.calls++; RF.flg = eflags; RF.nsub = nmatch; RF.subj = str;
+	if (!RFI.found)
+		return 1;
+	for (i = 0; i < RS_MAXG; i++)
+		if (i < nmatch) {
+			pmatch[i].rm_so = RFI.so[i];
+			pmatch[i].rm_eo = RFI.eo[i];
+		}
+	return 0;
+}
+void h_rset_find_bounded(void)
+{
+	struct rset rs;
+	int grp[RS_MAXN + 1], cnt[RS_MAXN + 1], out[8];
+	char subj[2];
+	int i, n = nondet_int(), want = nondet_int(), flg = nondet_int();
+	GHOST_INIT();
+	__CPROVER_assume(0 <= n && n <= RS_MAXN && 0 <= want && want <= 4);
+	__CPROVER_assume((flg & ~(RE_ICASE | RE_NOTBOL | RE_NOTEOL)) == 0);
+	/* the numbering rset_make produces: group 1 is the outer parenthesis, pattern i owns groups grp[i] .. grp[i] + cnt[i] */
+	int g = 2;
+	for (i = 0; i < RS_MAXN; i++) {
+		if (i >= n)
+			break;
+		if (nondet_bool()) {	/* an absent pattern */
+			grp[i] = -1; cnt[i] = 0;
+		} else {
+			cnt[i] = nondet_int();
+			__CPROVER_assume(0 <= cnt[i] && cnt[i] <= 2);
+			grp[i] = g;
+			g += 1 + cnt[i];
+		}
+	}
+	grp[n] = g;
+	rs.n = n; rs.grp = grp; rs.setgrpcnt = cnt; rs.grpcnt = g;
+	RFI.found = nondet_bool();
+	for (i = 0; i < RS_MAXG; i++) {
+		RFI.so[i] = nondet_int(); RFI.eo[i] = nondet_int();
+		__CPROVER_assume(-1 <= RFI.so[i] && RFI.so[i] <= 100 && -1 <= RFI.eo[i] && RFI.eo[i] <= 100);
+	}
+	for (i = 0; i < 8; i++)
+		out[i] = -7;
+	RF.calls = RF.bad = 0;
+	int r = rset_find(&rs, subj, want, out, flg);
+	if (g <= 2) {
+		H_ASSERT(r == -1 && RF.calls == 0, "rset_find: a set without patterns matches nothing");
+		return;
+	}
+	H_ASSERT(RF.calls == 1 && RF.subj == subj && RF.nsub == g && RF.flg == (REG_NEWLINE | ((flg & RE_NOTBOL) ? REG_NOTBOL : 0) | ((flg & RE_NOTEOL) ? REG_NOTEOL : 0)),
+		"rset_find: the combined expression is matched once, with not-at-line-start / not-at-line-end handed on");
+	int exp = -1;
+	for (i = 0; i < RS_MAXN; i++)
+		if (i < n && RFI.found && grp[i] >= 0 && RFI.so[grp[i]] >= 0)
+			exp = i;
+	H_ASSERT(r == exp, "rset_find: the index reported is that of the pattern whose own group took part in the match (-1 when nothing matched)");
+	if (r >= 0)
+		for (i = 0; i < 4; i++)
+			if (i < want) {
+				if (i <= cnt[r])
+					H_ASSERT(out[2 * i] == RFI.so[grp[r] + i] && out[2 * i + 1] == RFI.eo[grp[r] + i], "rset_find: group i of the matching pattern is reported from that pattern's own group numbers");
+				else
+					H_ASSERT(out[2 * i] == -1 && out[2 * i + 1] == -1, "rset_find: groups the pattern does not have read as unset");
+			}
 #ifdef CANARY
 	__CPROVER_assert(0, "canary");
 #endif
